@@ -271,6 +271,7 @@ def run(ctx: Ctx, rs: RuleSet, tier: str):
   md_param = uf.params[2]
   for attr, meth in want.items():
     tgt, val, c = seen.get(attr, (None, None, None))
+    val = roles.deref(uf, val) if val is not None else None
     ok = (val is not None and isinstance(val, ast.Call) and isinstance(
         val.func, ast.Attribute) and val.func.attr == meth and
           unparse(val.func.value) == md_param and unparse(tgt) == new_obj)
@@ -312,6 +313,26 @@ def run(ctx: Ctx, rs: RuleSet, tier: str):
                   fl, ast.Call) and isinstance(fl.func, ast.Attribute) and
               fl.func.attr == '__flatten__' and
               not fl.args and not c.keywords)
+      if not good and isinstance(c, ast.Call) and isinstance(
+          c.func, ast.Attribute) and c.func.attr == '__unflatten__' and len(
+              c.args) == 2 and not c.keywords and all(
+                  isinstance(a_, ast.Name) for a_ in c.args):
+        # values, metadata = <source>.__flatten__();
+        # return <type>.__unflatten__(values, metadata)
+        for st_ in walk_function(f.node):
+          if isinstance(st_, ast.Assign) and len(st_.targets) == 1 and isinstance(
+              st_.targets[0], ast.Tuple) and [
+                  unparse(t_) for t_ in st_.targets[0].elts] == [
+                      a_.id for a_ in c.args] and isinstance(
+                          st_.value, ast.Call) and isinstance(
+                              st_.value.func, ast.Attribute) and (
+                                  st_.value.func.attr == '__flatten__') and (
+                                      not st_.value.args):
+            stores_ = [n_ for n_ in walk_function(f.node) if isinstance(
+                n_, ast.Name) and n_.id in [a_.id for a_ in c.args] and
+                       isinstance(n_.ctx, ast.Store)]
+            if len(stores_) == 2:
+              fl, good = st_.value, True
       if good:
         src = unparse(fl.func.value)
         good = src in f.params
